@@ -84,6 +84,19 @@ class TestDataCollection(object):
         self.dc.append(self.data)
         assert len(self.dc) == 1
 
+    def test_insert(self):
+        """ insert method adds to collection at a given position """
+        d1, d2, d3 = Data(x=[1]), Data(x=[2]), Data(x=[3])
+        self.dc.extend([d1, d2])
+        self.dc.insert(0, d3)
+        assert self.dc.data == [d3, d1, d2]
+        msg = self.log.messages[-1]
+        assert isinstance(msg, DataCollectionAddMessage)
+        assert msg.data is d3
+        # like append, inserting a dataset that is already present does nothing
+        self.dc.insert(2, d3)
+        assert self.dc.data == [d3, d1, d2]
+
     def test_remove(self):
         self.dc.append(self.data)
         self.dc.remove(self.data)
